@@ -1510,7 +1510,7 @@ MUTANTS = [
     dict(name="verify-context-not-created-in-btcc", file="value.cpp", find="    static ECCVerifyHandle verify_handle;\n", replace="", expect=["R15.12:verify-context@btcc.cpp"]),
     dict(name="p2sh-empty-stack-assert", file="debugger/interpreter.cpp", find="            if (env.p2shstack.empty())\n                return set_error(serror, SCRIPT_ERR_INVALID_STACK_OPERATION);\n", replace="            assert(!env.p2shstack.empty());\n", expect=["R15.11:assert@"]),
     dict(name="instance-dtor-deletes-shared-tce", file="instance.h", find="        delete env;\n", replace="        delete env;\n        delete tce;\n", expect=["R15.2:single-owner=InterpreterEnv::tce<-Instance::tce"]),
-    dict(name="delete-strdup-memory", file="instance.cpp", find="        free(const_cast<char*>(push_del.back()));", replace="        delete push_del.back();", expect=["R15.2:dealloc=Instance::configure_tx_txin"]),
+    dict(name="delete-strdup-memory", file="instance.cpp", find="            std::string ss = s;\n            free(s);", replace="            std::string ss = s;\n            delete s;", expect=["R15.2:dealloc=Instance::parse_transaction"]),
     dict(name="free-new-memory", file="cliargs.h", find="delete long_options.back();", replace="free(long_options.back());", expect=["R15.2:dealloc=cliargs::~cliargs"]),
     dict(name="unbounded-flag-buffer", file="btcdeb.cpp", find="        } else if (j < sizeof(buf) - 1) {\n            buf[j++] = mod[i];\n        } else {", replace="        } else if (true) {\n            buf[j++] = mod[i];\n        } else {", expect=["R15.4:array=buf@svf_parse_flags"]),
     dict(name="off-by-one-flag-buffer", file="btcdeb.cpp", find="} else if (j < sizeof(buf) - 1) {", replace="} else if (j < 128) {", expect=["R15.4:array=buf@svf_parse_flags"]),
